@@ -135,6 +135,8 @@ class Interp(Ops, Builtins, DynOps):
         if isinstance(r, ModuleInfo):
             return VModule(r)
         if isinstance(r, External):
+            if r.dotted in self.ext_attrs_plain:
+                return self.ext_attrs_plain[r.dotted](self, node)
             return VExt(r.dotted)
         if isinstance(r, tuple) and r[0] == "assign":
             _, mod, expr = r
@@ -857,6 +859,14 @@ class Interp(Ops, Builtins, DynOps):
             self.inline_depth -= 1
 
     def instantiate(self, cls, args, kwargs, node):
+        cc = self.contracts.get(cls.fq)
+        if cc is not None and callable(cc.returns):
+            # constructor call cut at a contract on the class itself: the contract builds the (abstract) instance
+            cf = Frame(cls.module)
+            cf.vars["args"] = VTuple(args)
+            for k, v in kwargs.items():
+                cf.vars[k] = v
+            return cc.returns(self, cf)
         if cls.is_enum(self.index):
             return self.enum_by_value(cls, args[0], node)
         cm = self.class_models.get(cls.name)
